@@ -48,24 +48,35 @@ Proof. vm_compute. reflexivity. Qed.
 (* ---- SimplifyUnusedExpr on an unused object literal with a computed key ------- *)
 Section UnusedKey.
   Definition ub (r : Z) : bool := 1000 <=? r.
-  Definition lenv_sym (r : Z) : value := VSym 1.             (* var k = Symbol.iterator *)
-  Definition genv0 (r : Z) : option value := None.
-  Definition oracle0 (r : Z) (t : nat) : outcome := Val VUndef.
-  Definition un0 (op : unop) (v : value) (t : nat) : trace * outcome := ([], Val (VNum (Fin false 0 0))).
-  Definition bin0 (op : binop) (a b : value) (t : nat) : trace * outcome := ([], Val (VNum (Fin false 0 0))).
+  Definition zero_v : value := VNum (Fin false 0 0).
+  (* a world in which the declared identifier 1 holds a symbol (var k = Symbol.iterator)
+     and every abstract operation is free of effects *)
+  Definition W0 : world := {|
+    w_unbound := ub;
+    w_lenv := fun _ => VSym 1;
+    w_this := VUndef;
+    w_genv := fun _ => None;
+    w_un := fun _ _ _ => ([], Val zero_v);
+    w_bin := fun _ _ _ _ => ([], Val zero_v);
+    w_call := fun _ _ _ => ([], Val VUndef);
+    w_new := fun _ _ _ => ([], Val VObjLit);
+    w_get := fun _ _ _ => ([], Val VUndef);
+    w_tokey := fun v _ => ([], Val v);
+    w_tostr := fun _ _ => ([], Val (VStr []));
+    w_spread := fun _ _ => ([], Val VUndef)
+  |}.
 
   Definition obj_with_symbol_key : expr := EObject [(0, true, EId 1 false false, ENum (Fin false 1 0))].
 
   (* the statement one would like: an unused expression statement and its
      simplification have the same effects *)
   Definition simplify_unused_preserves_effects (e : expr) : Prop :=
-    same_effects (eval ub lenv_sym genv0 oracle0 un0 bin0 [] e)
-                 (eval_unused ub lenv_sym genv0 oracle0 un0 bin0 [] (simplify_unused ub false e)).
+    same_effects (eval W0 [] e) (eval_unused W0 [] (simplify_unused ub false e)).
 
   (* ({[k]: 1}) completes normally; its simplification k + "" throws TypeError *)
   Lemma simplify_unused_object_key_refuted_w :
     exists e, simplify_unused ub false e = UExpr (EBin BAdd (EId 1 false false) (EStr []))
-              /\ eval ub lenv_sym genv0 oracle0 un0 bin0 [] e = Some ([], Val VObjLit)
+              /\ eval W0 [] e = Some ([], Val VObjLit)
               /\ ~ simplify_unused_preserves_effects e.
   Proof.
     exists obj_with_symbol_key. split; [vm_compute; reflexivity|]. split; [vm_compute; reflexivity|].
